@@ -34,14 +34,15 @@ type vC03Doc struct {
 }
 
 type vC03Sys struct {
-	c     *vCtx
-	cfgS  string
-	nids  int
-	texts []string
-	idx   *BM25SearchIndex
-	docs  map[uint32]*vC03Doc // documents not yet flushed away (incl. soft-deleted)
-	ever  map[uint32]bool
-	gone  map[uint32]bool // removed (soft-deleted or flushed away)
+	c         *vCtx
+	cfgS      string
+	nids      int
+	inRecheck bool
+	texts     []string
+	idx       *BM25SearchIndex
+	docs      map[uint32]*vC03Doc // documents not yet flushed away (incl. soft-deleted)
+	ever      map[uint32]bool
+	gone      map[uint32]bool // removed (soft-deleted or flushed away)
 }
 
 func (s *vC03Sys) Reset() {
@@ -204,13 +205,14 @@ func vAcceptDesc(ids []uint32, scores []float32, ref map[uint32]float64, k int) 
 
 func (s *vC03Sys) observe(h []string) {
 	mkey := s.Key()
-	canonBefore := vCanonBM25(s.idx)
-	defer func() {
-		s.c.Evaluations++
-		if after := vCanonBM25(s.idx); after != canonBefore {
-			s.c.Violation("search-modified-index", "", s.cfgS, h, fmt.Sprintf("index state before the queries [%s] after [%s]", canonBefore, after))
-		}
-	}()
+	if !s.inRecheck {
+		defer func() {
+			// searching must not change later answers: evaluate the alphabet once more
+			s.inRecheck = true
+			s.observe(h)
+			s.inRecheck = false
+		}()
+	}
 	// private statistics == those of the not-yet-flushed corpus
 	s.c.Evaluations++
 	total := 0
